@@ -1554,11 +1554,11 @@ def parts(tier):
         Part("small_pairs", check=check_small, bulk=bulk_small_pairs, quick=(16, 0), thorough=(16, 0), exhaustive=True),
         Part("small_unary", check=check_small, bulk=bulk_small_unary, quick=(8, 0), thorough=(16, 0), exhaustive=True),
         Part("small_mul", check=check_small, bulk=bulk_small_mul, quick=(16, 0), thorough=(16, 0), exhaustive=True),
-        Part("small_muladd", check=check_small, bulk=bulk_small_muladd, quick=(16, 0), thorough=(16, 0), exhaustive=True),
+        Part("small_muladd", check=check_small, bulk=bulk_small_muladd, quick=(16, 0), thorough=(16, 0)),
         Part("numtheory", check=check_numtheory, bulk=bulk_numtheory, quick=(4, 0), thorough=(8, 0), exhaustive=True),
         Part("diff_edge", check=check_diff, enum=enum_diff_edge, quick=(16, 0), thorough=(16, 0)),
-        Part("diff", check=check_diff, strategy=strat_diff, quick=(16, 100), thorough=(16, 5000)),
-        Part("ecdh", check=check_ecdh, strategy=strat_ecdh, quick=(16, 25), thorough=(16, 1200)),
+        Part("diff", check=check_diff, strategy=strat_diff, quick=(16, 200), thorough=(16, 6000)),
+        Part("ecdh", check=check_ecdh, strategy=strat_ecdh, quick=(16, 50), thorough=(16, 1500)),
         Part("invalid_grid", check=check_invalid, enum=enum_invalid_grid, quick=(8, 0), thorough=(16, 0)),
         Part("invalid", check=check_invalid, strategy=strat_invalid, quick=(8, 150), thorough=(16, 4000)),
     ]
